@@ -35,6 +35,15 @@ GARBAGE = ["", " ", "<", "<math", "<math>", "</math>", "<math></math>", "<math/>
            "<math><mi>x</mi><mi data-changed='empty_content'/><mi>y</mi></math>", "<math display='block' alttext='&lt;'><mi>x</mi></math>",
            "<math><semantics><annotation>x</annotation></semantics></math>", "<math><semantics/></math>", "<math><mtext>&#xF8FD;</mtext></math>",
            "<math><mtext>[[</mtext></math>", "<math><mo>|</mo><mo>)</mo></math>", "<math><mo>(</mo></math>", "<math><mo>)</mo><mo>(</mo></math>",
+           "<math><semantics><annotation-xml encoding='MathML-Presentation'/></semantics></math>",
+           "<math><semantics><annotation-xml encoding='MathML-Presentation'><mi>x</mi><mi>y</mi></annotation-xml></semantics></math>",
+           "<math><semantics><annotation-xml encoding='MathML-Presentation'>text</annotation-xml></semantics></math>",
+           "<math><semantics><annotation-xml encoding='MathML-Content'><ci>x</ci></annotation-xml></semantics></math>",
+           "<math><semantics><annotation-xml encoding='MathML-Presentation'><mi>x</mi></annotation-xml><mi>y</mi></semantics></math>",
+           "<math><semantics><annotation encoding='application/x-tex'>x</annotation><annotation-xml encoding='MathML-Presentation'/></semantics></math>",
+           "<math><semantics><mi>x</mi><annotation-xml encoding='MathML-Presentation'/></semantics></math>",
+           "<math><semantics><annotation-xml/></semantics></math>", "<math><annotation-xml encoding='MathML-Presentation'><mi>x</mi></annotation-xml></math>",
+           "<math><annotation>x</annotation></math>",
            "<math><mn>1</mn><mo>,</mo></math>", "<math><mo>,</mo><mo>,</mo><mo>,</mo></math>", "﻿<math><mi>x</mi></math>", "<math><mi>" + "x" * 5000 + "</mi></math>",
            "<math>" + "<mi>x</mi>" * 800 + "</math>", "<math><mi>x</mi></math><math><mi>y</mi></math>", "<math><mi>x</mi></math>trailing"]
 NAV_JUNK = ["", "zoomin", "ZoomIn ", "MoveTo", "MoveTo10", "MoveTo-1", "SetPlacemarker", "SetPlacemarker99", "Read", "⁡", "ZoomIn\x00", "Exit", "MoveNextNext",
@@ -102,7 +111,7 @@ def gen_history(rng, names, kinds, cmds, bodies, length):
         elif r < 0.82:
             ops.append(["do_navigate_command", rng.choice(cmds) if rng.random() < 0.8 else rng.choice(NAV_JUNK)])
         elif r < 0.88:
-            ops.append(["do_navigate_keypress", rng.choice([37, 38, 39, 40, 13, 32, 36, 35, 8, 9, 27, 48, 49, 57, 65, 90, 0, 255, 1000, 99999]),
+            ops.append(["do_navigate_keypress", rng.choice([37, 38, 39, 40, 13, 32, 36, 35, 8, 9, 27, 48, 49, 57, 65, 90, 0, 255, 1000, 99999]) if rng.random() < 0.5 else rng.randint(0, 255),
                         rng.random() < 0.3, rng.random() < 0.3, rng.random() < 0.2, rng.random() < 0.1])
         elif r < 0.94:
             ops.append(["set_navigation_node", rng.choice(IDS_JUNK), rng.choice([0, 1, 5, 10 ** 6])] if rng.random() < 0.5 else
@@ -208,6 +217,26 @@ def histories(res):
                 for t in ("<msup><mi>x</mi><mn>%s</mn></msup>", "<mroot><mi>x</mi><mn>%s</mn></mroot>", "<mfrac><mn>1</mn><mn>%s</mn></mfrac>", "<mfrac><mn>%s</mn><mn>3</mn></mfrac>"):
                     h += [["set_mathml", X.math(t % nme)], ["get_spoken_text"]]
             hs.append((h, rng.choice(FINAL)))
+    # before the first set_rules_dir: every preference set to the value it already has, to each documented value and to
+    # junk, every query, every navigation call
+    defaults = [(k, v) for _, k, _, v in (C.one_session([["v_prefs_dump"]])["res"][0].get("ok") or [])]
+    opts = {k: v for k, v in C.pref_options().items()}
+    for k, v in defaults:
+        vals = [str(v), str(v)] + list(opts.get(k, []))[:6] + ["", "junk"]
+        for val in (vals if tier != "quick" else vals[:3]):
+            hs.append(([["set_preference", k, val], ["get_preference", k], ["set_preference", k, val]], rng.choice(FINAL)))
+    hs.append(([["set_preference", k, str(v)] for k, v in defaults], rng.choice(FINAL)))
+    for q in (["get_spoken_text"], ["get_braille", ""], ["get_overview_text"], ["get_navigation_braille"], ["get_navigation_mathml"], ["get_navigation_mathml_id"],
+              ["get_braille_position"], ["do_navigate_command", "ZoomIn"], ["do_navigate_keypress", 39, False, False, False, False], ["set_navigation_node", "x", 0],
+              ["get_navigation_node_from_braille_position", 0], ["set_mathml", "<math><mi>x</mi></math>"]):
+        hs.append(([q, q], rng.choice(FINAL)))
+    # every key code with every modifier combination, on an expression with a table
+    tab = X.math("<mrow><mi>x</mi><mo>=</mo><mtable><mtr><mtd><mn>1</mn></mtd><mtd><mn>2</mn></mtd></mtr><mtr><mtd><mn>3</mn></mtd><mtd><mfrac><mn>1</mn><mn>2</mn></mfrac></mtd></mtr></mtable></mrow>")
+    for mods in range(16 if tier != "quick" else 4):
+        h = [["set_rules_dir", C.RULES], ["set_mathml", tab]]
+        for key in range(0, 256):
+            h.append(["do_navigate_keypress", key, bool(mods & 1), bool(mods & 2), bool(mods & 4), bool(mods & 8)])
+        hs.append((h, rng.choice(FINAL)))
     # the arity sweep: ill-formed and borderline elements one after the other in one session, a query after each
     sweep = arity_sweep(tier)
     for i in range(0, len(sweep), 40):
